@@ -25,6 +25,9 @@ type EntryContext struct {
 	startTime uint64
 	// the rt of this transaction
 	rt uint64
+	// whether the statistic slots have been told the outcome (pass/block) of this entry;
+	// false when the slot chain aborted with a panic before its statistic phase.
+	outcomeRecorded bool
 
 	Resource *ResourceWrapper
 	StatNode StatNode
@@ -120,6 +123,7 @@ func (ctx *EntryContext) Reset() {
 	ctx.err = nil
 	ctx.startTime = 0
 	ctx.rt = 0
+	ctx.outcomeRecorded = false
 	ctx.Resource = nil
 	ctx.StatNode = nil
 	ctx.Input.reset()
